@@ -1196,6 +1196,11 @@ func (r *Raft) restoreUserSnapshot(meta *SnapshotMeta, reader io.Reader) error {
 		return ErrRaftShutdown
 	}
 	if err := fsm.Error(); err != nil {
+		if err == ErrRaftShutdown {
+			// Shutdown() was called while the FSM was restoring: the caller
+			// of Restore is told so, there is nothing to take out.
+			return err
+		}
 		panic(fmt.Errorf("failed to restore snapshot: %v", err))
 	}
 
